@@ -1109,15 +1109,16 @@ def run(ctx):
         if not getattr(ctx, 'no_mc', False):
             # the cache machine with a key that does not keep the function object alive must be rejected by TLC
             # (demonstrates that the coherence law of the specification is not vacuous)
-            r = common.tlc('GodambeMC', 'GodambeMC_cache_hashkey.cfg', workers=2)
-            if r.ok or 'L_CacheCoherent' not in (r.violation or ''):
-                raise common.MachineryError('GodambeMC_cache_hashkey.cfg: the hash-keyed cache model was not rejected (%s)' % r.violation)
-            extra['negative_model'] = 'GodambeMC_cache_hashkey.cfg (key = number derived from the address): TLC finds the incoherent history in %d states' % r.states
             # ... and so must a key that leaves out a component of the point (grid points / sample sizes / parameters)
-            for name in ('dropgrid', 'dropns', 'dropparams'):
-                r = common.tlc('GodambeMC', 'GodambeMC_cache_%s.cfg' % name, workers=2)
+            from concurrent.futures import ThreadPoolExecutor
+            names = ('hashkey', 'dropgrid', 'dropns', 'dropparams')
+            with ThreadPoolExecutor(4) as ex:
+                res = list(ex.map(lambda nm: common.tlc('GodambeMC', 'GodambeMC_cache_%s.cfg' % nm, workers=2), names))
+            for name, r in zip(names, res):
                 if r.ok or 'L_CacheCoherent' not in (r.violation or ''):
-                    raise common.MachineryError('GodambeMC_cache_%s.cfg: the cache model with an incomplete key was not rejected (%s)' % (name, r.violation))
+                    raise common.MachineryError('GodambeMC_cache_%s.cfg: the defective cache model was not rejected (%s)' % (name, r.violation))
+            extra['negative_model'] = 'GodambeMC_cache_hashkey.cfg (key = number derived from the address): TLC finds the incoherent history in %d states' % res[0].states
+            for name, r in zip(names[1:], res[1:]):
                 extra['negative_model_' + name] = 'GodambeMC_cache_%s.cfg (key without that component of <<params, ns, grid_pts>>): TLC finds the incoherent history in %d states' % (name, r.states)
     mcs = [('GodambeMC', 'GodambeMC_%s_%s.cfg' % (m, ctx.tier)) for m in ('stencil', 'stats', 'cache')]
     return common.pipeline(
